@@ -176,9 +176,19 @@ def transform_inputs(tier, seed):
                 add(ep, kind, "NotJson", "0", full[:c].encode(), status="200")
             for b in ["not json", "<html>", "{'height':1}", '{"height":1,}', "NaN"]:
                 add(ep, kind, "NotJson", "0", b.encode(), status="200")
+            # long bodies that are text but not JSON (error pages), with multi-byte characters at every offset
+            offsets = range(0, 260) if tier == "thorough" else sorted(set(list(range(94, 106)) + rng.sample(range(0, 260), 25)))
+            for k in offsets:
+                page = "<html><body>" + "x" * k + rng.choice(["é", "✓", "😀", "ß漢"]) + " upstream error " + "y" * rng.choice([0, 40, 150]) + "</body></html>"
+                add(ep, kind, "NotJson", "0", page.encode(), status="200")
+                if rng.random() < 0.3:
+                    add(ep, kind, "NotJson", "0", page.encode())
         else:
             for b in ["12 ", " 12", "12\n", "-1", "1.0", "abc", "18446744073709551616", "0x10", "1_000", "١٢"]:
                 add(ep, kind, "TextOther", "0", b.encode(), status="200")
+            for k in (sorted(rng.sample(range(0, 260), 12)) + [98, 99, 100]):
+                page = "<html>" + "x" * k + "é✓😀" + "y" * 60
+                add(ep, kind, "TextOther", "0", page.encode(), status="200")
         for b in [b"\xff\xfe", b'{"height":1}\xff', b"12\x80"]:
             add(ep, kind, "NotUtf8", "0", b, status="200")
         add(ep, kind, "Empty", "0", b"", status="200")
